@@ -51,7 +51,7 @@ theorem sinv_of_empty (w0 : World) (hn0 : w0.nodes = #[]) (ht0 : w0.tables = #[]
   have hts1 : (w0.createNode 0 none).1.tables = #[] := ht0
   have hns1 : (w0.createNode 0 none).1.nodes.size = 1 := by unfold createNode; simp [hn0]
   have c1 : CovInv (w0.createNode 0 none).1 := by
-    refine ⟨?_, ?_, ?_⟩
+    refine ⟨?_, ?_, ?_, ?_⟩
     · intro t ht; rw [hts1] at ht; simp at ht
     · intro n hn _
       have : n = (w0.createNode 0 none).2 := by
@@ -61,6 +61,10 @@ theorem sinv_of_empty (w0 : World) (hn0 : w0.nodes = #[]) (ht0 : w0.tables = #[]
       have : n = (w0.createNode 0 none).2 := by
         rw [hns1] at hn; unfold createNode; simp [hn0]; omega
       rw [this, hnd]; simp
+    · intro n hn hact
+      have : n = (w0.createNode 0 none).2 := by
+        rw [hns1] at hn; unfold createNode; simp [hn0]; omega
+      rw [this, hnd] at hact; simp at hact
   have ci1 : CInv (w0.createNode 0 none).1 := by
     have hc : (w0.createNode 0 none).1.cache = #[] := hc0
     refine ⟨?_, ?_, ?_⟩
